@@ -72,6 +72,7 @@ fn spelled_value(kind: &str, text: &str) -> Option<u128> {
 
 /// mantissa 0 with an exponent ≥ 20 (`0e20`): the one family the lowering refuses although it
 /// spells a value that fits (finding `zero-mantissa-huge-exponent`, reported by stream A only)
+#[allow(dead_code)]
 fn is_zero_times_huge_power(text: &str) -> bool {
     if text.starts_with("0x") || text.starts_with("0b") {
         return false;
@@ -798,7 +799,6 @@ pub fn run(tier: &str, seed: u64, widen: bool) -> Report {
         let mut b_cases: Vec<(usize, (bool, u32), String, u128)> = vec![];
         for v in &values {
             let mut sp = spellings(&mut rng, *v, extra);
-            sp.retain(|(_, t)| !is_zero_times_huge_power(t));
             for t in INT_TYS {
                 // context 0 (annotated local): every spelling; other contexts: two spellings each
                 let near = (0..=100u32).any(|w| (*v as i128 - (1i128 << w)).abs() <= 2);
@@ -905,9 +905,6 @@ pub fn run(tier: &str, seed: u64, widen: bool) -> Report {
                 for (i, (_, text)) in sp.iter().enumerate() {
                     if spelled_value(if text.starts_with("0x") { "hex" } else if text.starts_with("0b") { "bin" } else { "dec" }, text) != Some(*v) {
                         continue;
-                    }
-                    if is_zero_times_huge_power(text) {
-                        continue; // 0e20-style spellings are rejected by the lowering (stream A)
                     }
                     if ctx <= 1 || (ctx < 5 && i < 4) || i < 2 || thorough {
                         c_cases.push((ctx, text.clone(), *v));
